@@ -62,6 +62,73 @@ def ob_from_hash():
                           "all 40-byte (320-bit) Ha", body, stubs=["u256_mul/u256_sub/u256_add/u256_cmp -> exact integer statements (L1)"])
 
 
+def ob_hash_framing(which, dlen, wlen=0):
+    """H1(ID, hid) / H2(M, w) byte framing for one input length, engine M: SM3 and mod_n_from_hash are capturing
+    uninterpreted functions; the two hash inputs and the 64-byte Ha handed to mod_n_from_hash are compared with GM/T 0044.2"""
+    from proto import Hash, sym_bytes, split_bytes, slice_vals
+    from domains import BV
+    name = "%s_framing_len_%05d" % (which, dlen)
+    def body(stats):
+        c = load_crate(CRATE)
+        def run(ctx):
+            dom = BV(); ex = Ex(c, dom, ctx); h = Hash(dom)
+            fh = []
+            def from_hash(ex_, argv):
+                vals = slice_vals(ex_, argv[0])
+                out = z3.BitVec("fromhash%d" % len(fh), 256)
+                fh.append(([dom.term(v) for v in vals], out))
+                return Agg([Sc(Sym(z3.Extract(64 * i + 63, 64 * i, out)), "u64") for i in range(4)], name="array")
+            ex.summaries = {"sm3_hash": h.summary(), "mod_n_from_hash": from_hash}
+            data = sym_bytes(dom, "d", dlen)
+            dref = Ref(Cell(Agg(list(data), name="array"), "data"), (), (0, dlen))
+            if which == "h1":
+                hid = dom.sym("hid", "u8")
+                r = ex.run_fn(c.find("sm9_u256_hash1"), [dref, hid])
+                tail = [dom.term(hid)]; prefix = 1
+            else:
+                w = sym_bytes(dom, "w", wlen)
+                r = ex.run_fn(c.find("sm9_u256_hash2"), [dref, Ref(Cell(Agg(list(w), name="array"), "w"), (), (0, wlen))])
+                tail = [dom.term(b) for b in w]; prefix = 2
+            return dom, h, fh, data, tail, prefix, r
+        paths = explore(run, prune=prune, max_paths=8)
+        check_all_panics(stats, paths)
+        live = live_paths(paths)
+        if len(live) != 1:
+            raise Inconclusive("expected one path through the hash function, found %d" % len(live))
+        for ctx, (dom, h, fh, data, tail, prefix, r) in live:
+            if len(h.calls) != 2 or len(fh) != 1:
+                raise Violation("%s makes %d SM3 calls and %d mod_n_from_hash calls (2 and 1 expected)" % (which, len(h.calls), len(fh)))
+            hy = ctx.facts + ctx.pc
+            base = [z3.BitVecVal(prefix, 8)] + [dom.term(b) for b in data] + tail
+            for ct, (ts, out) in zip((1, 2), h.calls):
+                want = base + [z3.BitVecVal(x, 8) for x in (0, 0, 0, ct)]
+                if len(ts) != len(want):
+                    raise Violation("hash input %d has %d bytes, expected %d (0x%02x || %d data bytes || %d || counter)" % (ct, len(ts), len(want), prefix, len(data), len(tail)))
+                diff = [i for i, (a, b) in enumerate(zip(ts, want)) if not z3.eq(a, b)]
+                if diff:
+                    discharge(stats, hy, z3.And([ts[i] == want[i] for i in diff]), "Ha%d = SM3(0x%02x || data || %s || ct=%d)" % (ct, prefix, "hid" if which == "h1" else "w", ct))
+                else:
+                    stats.n += 1
+            ha, out = fh[0]
+            if len(ha) < 40:
+                raise Violation("mod_n_from_hash receives %d bytes" % len(ha))
+            from proto import split_terms
+            want = split_terms(h.calls[0][1], 32) + split_terms(h.calls[1][1], 32)
+            discharge(stats, hy, z3.And([a == b for a, b in zip(ha[:40], want[:40])]), "Ha = Ha1 || Ha2 (first 40 bytes are used)")
+            res = z3.Concat(*[dom.term(r.f[i]) for i in (3, 2, 1, 0)])
+            discharge(stats, hy, res == out, "the result is mod_n_from_hash(Ha)")
+        return {}
+    return run_obligation(name, ["gm_sm9::key::sm9_u256_%s" % ("hash1" if which == "h1" else "hash2")],
+                          "input of %d bytes%s; every byte symbolic" % (dlen, "" if which == "h1" else ", w of %d bytes" % wlen), body,
+                          ["sm3_hash -> uninterpreted function per input length (C01)", "mod_n_from_hash -> uninterpreted (decided by mod_n_from_hash_all_Ha)"])
+
+
+def framing_jobs(tier):
+    h1 = [0, 1, 5, 31, 255, 256, 257] if tier == "quick" else [0, 1, 2, 5, 31, 32, 55, 56, 64, 255, 256, 257, 300, 1000, 4096]
+    h2 = [0, 3, 20, 255, 256, 300] if tier == "quick" else [0, 1, 3, 20, 55, 56, 64, 255, 256, 257, 300, 511, 512, 1000, 4096]
+    return [(lambda n=n: ob_hash_framing("h1", n)) for n in h1] + [(lambda n=n: ob_hash_framing("h2", n, 384)) for n in h2]
+
+
 KSTUBS_H = ["sm3_hash -> capturing stub returning arbitrary digests", "mod_n_from_hash -> capturing stub (its arithmetic: mod_n_from_hash_all_Ha)"]
 KSTUBS_X = ["sm9_u256_hash1 -> arbitrary h1 (captures id, hid)", "mod_n_add / mod_n_inv / mod_n_mul -> logging arbitrary functions", "Point::g_mul / TwistPoint::g_mul -> capturing"]
 
@@ -89,7 +156,8 @@ def run(tier, seed, t0):
             lambda: ob_barrett_mod_n_mul(CRATE, N9),
             lambda: ob_mul(CRATE, "u256_mul", 4), lambda: ob_mul(CRATE, "u320_mul", 5),
             lambda: ob_addsub(CRATE, "u256_add", 4, False), lambda: ob_addsub(CRATE, "u256_sub", 4, True), lambda: ob_cmp(CRATE)]
-    res = run_parallel(jobs, nproc=10)
+    jobs += framing_jobs(tier)
+    res = run_parallel(jobs, nproc=14)
     res += kani.run_harnesses("C16", kani_specs(tier), per_timeout=600)
     return finish("C16", tier, seed, "model_checking", res, t0,
                   assumptions=["mod_n_inv is x^(N-2) by square-and-multiply over mod_n_mul (exponent tracking is C13's obligation); here it is an arbitrary function in the data-flow harness",
